@@ -1,4 +1,5 @@
 import SgVerif.C26.Model
+import SgVerif.C26.FatTreeSpec
 import SgVerif.Common.Proto
 open SgVerif.Proto
 /-
@@ -256,6 +257,8 @@ def judgeFt (q : List String) (a : List String) : Verdict :=
       let n := f.nLeaves
       let routes := splitRoutes a
       if routes.length != n then .disagree s!"{n}-routes-expected" else
+      -- hypothesis of the `fattree_*` theorems, evaluated on the construction of every zone (once per zone: first source)
+      if src == 0 && f.paramsOk && !(tb.wfCheck f) then .monfail "fat-tree-construction-not-well-formed (FTables.wfCheck)" else
       let mon := firstBad ((List.range n).zip routes |>.map (fun (d, r) => (d, ftMonitor f src d r)))
       match mon with
       | some (d, m) => .monfail s!"dst={d} {m}"
